@@ -205,7 +205,7 @@ def run(ctx):
     if not ctx.broken():
         ctx.prove(MODULE, THEOREMS)
         ctx.forbidden_scan(["AurelVerif/Props/C07.lean", "AurelVerif/Lemmas/Stencil.lean",
-                            "AurelVerif/Lemmas/SpliceLemmas.lean", "AurelVerif/Spec/FD.lean",
+                            "AurelVerif/Lemmas/SpliceLemmas.lean", "AurelVerif/Lemmas/SpliceAux.lean", "AurelVerif/Lemmas/SpliceSpec.lean", "AurelVerif/Spec/FD.lean",
                             "AurelVerif/Model/Splice.lean", "AurelVerif/Gen/Stencils.lean"])
         if ctx.tier == "thorough":
             ctx.leanchecker([MODULE])
